@@ -79,6 +79,22 @@ theorem fact_sub_reconcilers :
     CandidateFacts.subReconcilers = ["drift", "consolidation"] ∧
     CandidateFacts.subReconcilerLoopExits = 0 ∧ CandidateFacts.reconcileReturnsBeforePatch = 0 := by decide
 
+/-- what each method looks at again between the listing of its candidates and its command: Drift simulates
+    scheduling for the one candidate of its command; Single/MultiNodeConsolidation go through
+    `computeConsolidation` → `SimulateScheduling` and validate; Emptiness only validates; **StaticDrift neither
+    simulates nor looks at the deletion state nor validates** (known finding C07-staticdrift-late-deletion — when it
+    is repaired this fact and `C07_late_deletion_partial` change).  `SimulateScheduling` derives the deleting nodes
+    from the cluster's node list before anything else. -/
+theorem fact_final_look :
+    simulates .drift = true ∧ simulates .single = true ∧ simulates .multi = true ∧
+    simulates .emptiness = false ∧ simulates .staticDrift = false ∧
+    CandidateFacts.staticDriftComputeCalls = [] ∧
+    CandidateFacts.emptinessComputeCalls.contains "Validate" = true ∧
+    CandidateFacts.singleComputeCalls.contains "Validate" = true ∧
+    CandidateFacts.multiComputeCalls.contains "Validate" = true ∧
+    CandidateFacts.simulateSchedulingCalls.take 2 = ["DeepCopyNodes", "Deleting"] ∧
+    (Method.all.all fun m => revalidates m == !isDrift m) = true := by decide
+
 /-! ## The main theorem: all worlds × all five methods -/
 
 /-- **C07_no_protected** — for every world and each of the five methods: if the method selects the node, then the
@@ -512,6 +528,134 @@ def dndPod : Pod := { plainPod with dnd := .true_ }
 def blockedTGP : World := { busy with claim := some { okClaim with tgp := true }, pods := [dndPod] }
 def blockedNoTGP : World := { busy with pods := [dndPod] }
 
+/-! ## The pass is not atomic: a node that starts deleting after the candidates were listed -/
+
+/-- a selected node is tracked, has a NodeClaim and is not deleting as far as the state node knows -/
+theorem selected_tracked {w : World} {m : Method} (h : selected w m = true) :
+    ∃ s c, stateNode w = some s ∧ w.claim = some c ∧ s.markedForDeletion = false ∧ w.inQueue = false := by
+  obtain ⟨s, md, hs, hc, _, _⟩ := selected_unfold h
+  obtain ⟨hq, hv, _⟩ := newCandidate_ok hc
+  obtain ⟨hcl, _, _, _⟩ := stateNode_some hs
+  unfold StateNode.validateNode at hv
+  cases hcm : w.claim with
+  | none => simp [hcl, hcm] at hv
+  | some c =>
+    refine ⟨s, c, hs, rfl, ?_, hq⟩
+    cases hm : s.markedForDeletion with
+    | false => rfl
+    | true =>
+      exfalso
+      revert hv
+      simp only [hm]
+      repeat' split
+      all_goals simp_all
+
+/-- after a late deletion event the state node of a node that has a NodeClaim is marked for deletion -/
+theorem late_marks (w : World) (e : LateDeletion) (c : Claim) (hc : w.claim = some c) :
+    ∃ s, stateNode (e.apply w) = some s ∧ s.markedForDeletion = true := by
+  cases e <;>
+    simp [LateDeletion.apply, stateNode, hc, StateNode.markedForDeletion, StateNode.deleted, Cond.isTrue]
+
+theorem late_finalLook (w : World) (e : LateDeletion) (c : Claim) (hc : w.claim = some c) :
+    finalLook (e.apply w) = false := by
+  obtain ⟨s, hs, hm⟩ := late_marks w e c hc
+  simp [finalLook, hs, hm]
+
+theorem late_not_selected (w : World) (e : LateDeletion) (m : Method) (c : Claim) (hc : w.claim = some c) :
+    selected (e.apply w) m = false := by
+  cases h : selected (e.apply w) m with
+  | false => rfl
+  | true =>
+    obtain ⟨s, _, hs, _, hm, _⟩ := selected_tracked h
+    obtain ⟨s', hs', hm'⟩ := late_marks w e c hc
+    rw [hs] at hs'
+    cases hs'
+    rw [hm] at hm'
+    cases hm'
+
+/- FULL STATEMENT (fails for StaticDrift, see `C07_late_deletion_staticdrift`):
+     ∀ w0 e m, mayCommand m w0 (e.apply w0) = false
+   "a node that starts deleting — MarkForDeletion, NodeClaim deleted, InstanceTerminating — after the controller listed
+   the candidates of a method and before the method computes its commands is in no command of that method". -/
+/-- **C07_late_deletion_partial** — the full statement for every method but StaticDrift: Drift and Single/MultiNode
+    consolidation through the final look of `SimulateScheduling`, Emptiness (and consolidation again) through
+    validation. -/
+theorem C07_late_deletion_partial (w0 : World) (e : LateDeletion) (m : Method) (hm : m ≠ .staticDrift) :
+    mayCommand m w0 (e.apply w0) = false := by
+  cases hsel : selected w0 m with
+  | false => simp [mayCommand, hsel]
+  | true =>
+    obtain ⟨_, c, _, hc, _⟩ := selected_tracked hsel
+    have h1 := late_finalLook w0 e c hc
+    have h2 := late_not_selected w0 e m c hc
+    cases m with
+    | staticDrift => exact absurd rfl hm
+    | drift => simp [mayCommand, show simulates .drift = true by decide, h1]
+    | multi => simp [mayCommand, show simulates .multi = true by decide, h1]
+    | single => simp [mayCommand, show simulates .single = true by decide, h1]
+    | emptiness =>
+      have hr : revalidates .emptiness = true := by decide
+      simp [mayCommand, hr, h2]
+
+/-- the negation of the full statement on a witness (replayed on the real code: corpus/c07.controller/
+    k-staticdrift-late-deletion.json): StaticDrift puts a node whose NodeClaim was deleted meanwhile in a command -/
+theorem C07_late_deletion_staticdrift :
+    mayCommand .staticDrift okStatic (LateDeletion.claimDelete.apply okStatic) = true ∧
+    wellFormed (LateDeletion.claimDelete.apply okStatic) = true ∧
+    deleting (LateDeletion.claimDelete.apply okStatic) = true ∧
+    allowed (LateDeletion.claimDelete.apply okStatic) .staticDrift = false := by decide
+
+/-- **C07_command_not_deleting** — whatever happened between the listing (`w0`) and the computation (`w1`, ANY world):
+    a node the cluster state still tracks that is in a command of a method other than StaticDrift is not
+    "already deleting" in `w1` (not marked, NodeClaim neither deleting nor terminating; the queue is the
+    controller's own and cannot change during its pass) -/
+theorem C07_command_not_deleting (w0 w1 : World) (m : Method) (hm : m ≠ .staticDrift)
+    (htr : (stateNode w1).isSome = true) (hq : w1.inQueue = false) (h : mayCommand m w0 w1 = true) :
+    deleting w1 = false := by
+  have key : ∃ s, stateNode w1 = some s ∧ s.markedForDeletion = false := by
+    unfold mayCommand at h
+    simp only [Bool.and_eq_true, Bool.or_eq_true, Bool.not_eq_true'] at h
+    obtain ⟨⟨_, hsim⟩, hrev⟩ := h
+    cases hs1 : stateNode w1 with
+    | none => simp [hs1] at htr
+    | some s =>
+      refine ⟨s, rfl, ?_⟩
+      cases m with
+      | staticDrift => exact absurd rfl hm
+      | drift =>
+        have : finalLook w1 = true := by simpa [show simulates .drift = true by decide] using hsim
+        simpa [finalLook, hs1] using this
+      | multi =>
+        have : finalLook w1 = true := by simpa [show simulates .multi = true by decide] using hsim
+        simpa [finalLook, hs1] using this
+      | single =>
+        have : finalLook w1 = true := by simpa [show simulates .single = true by decide] using hsim
+        simpa [finalLook, hs1] using this
+      | emptiness =>
+        have hsel : selected w1 .emptiness = true := by
+          simpa [show revalidates .emptiness = true by decide] using hrev
+        obtain ⟨s', _, hs', _, hm', _⟩ := selected_tracked hsel
+        rw [hs1] at hs'
+        cases hs'
+        exact hm'
+  obtain ⟨s, hs, hmd⟩ := key
+  obtain ⟨hcl, _, hmk, _⟩ := stateNode_some hs
+  unfold StateNode.markedForDeletion StateNode.deleted at hmd
+  rw [hcl, hmk] at hmd
+  unfold deleting
+  rw [hq]
+  cases hc : w1.claim with
+  | none => simp_all
+  | some c => cases ht : c.terminating <;> simp_all [Cond.isTrue]
+
+/-- **C07_command_revalidated** — a method that validates: whatever changed meanwhile, the node of a command is
+    allowed by the specification in the later world too -/
+theorem C07_command_revalidated (w0 w1 : World) (m : Method) (hr : revalidates m = true)
+    (hwf : wellFormed w1 = true) (h : mayCommand m w0 w1 = true) : allowed w1 m = true := by
+  unfold mayCommand at h
+  simp only [Bool.and_eq_true, Bool.or_eq_true, Bool.not_eq_true', hr] at h
+  exact C07_no_protected w1 m hwf (by simpa using h.2)
+
 /-- the lifecycle hypothesis `wellFormed` of `C07_no_protected` cannot be dropped: a Node that carries
     `karpenter.sh/initialized=true` but has LOST `karpenter.sh/registered` (only possible by tampering with
     Karpenter's own labels: registration sets the label before initialization can happen and nothing removes it) is
@@ -571,5 +715,10 @@ example : (hobserve busy { now := 0, sn := none } demoHistory).map (fun r => r.g
     = [false, true, false, false, true, false, false, true] := by decide
 example : wellFormed ((specRun busy.pool { now := 0 } demoHistory).world busy) = true ∧
     hselected busy (hrun busy.batchMax busy.pool { now := 0, sn := none } demoHistory) .drift = true := by decide
+-- … the pass is not atomic: nothing changed -> commandable; a late deletion -> not (every method but StaticDrift)
+example : mayCommand .drift busy busy = true ∧ mayCommand .single busy busy = true ∧
+    mayCommand .emptiness emptyNode emptyNode = true ∧
+    mayCommand .drift busy (LateDeletion.mark.apply busy) = false ∧
+    (stateNode busy).isSome = true ∧ deleting (LateDeletion.claimTerminating.apply busy) = true := by decide
 
 end Karp.C07
